@@ -28,6 +28,7 @@ T8few == {0, 1, 4, 7, 8}
 T16few == {0, 1, 8, 9, 15, 16}
 TFull8 == {8}
 TFull16 == {16}
+ViewHist == <<default, tree, contents, tracking, tracked, pvalue, pbranch, ops, hist>>
 View == <<default, tree, contents, tracking, tracked, pvalue, pbranch, ops>>
 \* The observables are an operator of VALUES, applied to the (primed or unprimed) variables:
 \* TLC does not cache lazily evaluated operator arguments while it evaluates a primed
